@@ -109,26 +109,26 @@ theorem bind_final_ok {α β} (p : Plan α) (f : α → Plan β) (b : β) (h : (
 @[simp] theorem isEl_tx (n s : String) : (Xml.tx s).isEl n = false := rfl
 @[simp] theorem isEl_el (n m : String) (a : List (String × String)) (k : List Xml) : (Xml.el m a k).isEl n = (m == n) := rfl
 
-theorem etext_adjustKids (N : Num) (d : Int) (b : Bool) : ∀ ks, etext (adjustKids N d b ks) = etext ks
+theorem etext_adjustKids (N : Num) (ea : Bool) (d : Int) (b : Bool) : ∀ ks, etext (adjustKids N ea d b ks) = etext ks
   | [] => by simp [adjustKids]
-  | .tx s :: ks => by simp [adjustKids, adjust, etext, etext_adjustKids N d b ks]
+  | .tx s :: ks => by simp [adjustKids, adjust, etext, etext_adjustKids N ea d b ks]
   | .el n as k :: ks => by
     simp only [adjustKids, adjust]
     split
     · split <;> simp [etext]
     · simp [etext]
 
-theorem adjust_tx (N : Num) (d : Int) (b : Bool) (s : String) : adjust N d b (.tx s) = .tx s := by simp [adjust]
+theorem adjust_tx (N : Num) (ea : Bool) (d : Int) (b : Bool) (s : String) : adjust N ea d b (.tx s) = .tx s := by simp [adjust]
 
-theorem adjustKids_append (N : Num) (d : Int) (b : Bool) : ∀ xs ys, adjustKids N d b (xs ++ ys) = adjustKids N d b xs ++ adjustKids N d b ys
+theorem adjustKids_append (N : Num) (ea : Bool) (d : Int) (b : Bool) : ∀ xs ys, adjustKids N ea d b (xs ++ ys) = adjustKids N ea d b xs ++ adjustKids N ea d b ys
   | [], ys => by simp [adjustKids]
-  | x :: xs, ys => by simp [adjustKids, adjustKids_append N d b xs ys]
+  | x :: xs, ys => by simp [adjustKids, adjustKids_append N ea d b xs ys]
 
-theorem adjustKids_cons (N : Num) (d : Int) (b : Bool) (x : Xml) (xs : List Xml) :
-    adjustKids N d b (x :: xs) = adjust N d b x :: adjustKids N d b xs := by simp [adjustKids]
+theorem adjustKids_cons (N : Num) (ea : Bool) (d : Int) (b : Bool) (x : Xml) (xs : List Xml) :
+    adjustKids N ea d b (x :: xs) = adjust N ea d b x :: adjustKids N ea d b xs := by simp [adjustKids]
 
 /-- the name of an element survives `adjust` -/
-theorem adjust_isEl (N : Num) (d : Int) (b : Bool) (n : String) (x : Xml) : (adjust N d b x).isEl n = x.isEl n := by
+theorem adjust_isEl (N : Num) (ea : Bool) (d : Int) (b : Bool) (n : String) (x : Xml) : (adjust N ea d b x).isEl n = x.isEl n := by
   cases x with
   | tx s => simp [adjust]
   | el m as ks =>
@@ -137,7 +137,7 @@ theorem adjust_isEl (N : Num) (d : Int) (b : Bool) (n : String) (x : Xml) : (adj
     · split <;> simp [Xml.isEl]
     · simp [Xml.isEl]
 
-theorem adjust_isTx (N : Num) (d : Int) (b : Bool) (x : Xml) : (adjust N d b x).isTx = x.isTx := by
+theorem adjust_isTx (N : Num) (ea : Bool) (d : Int) (b : Bool) (x : Xml) : (adjust N ea d b x).isTx = x.isTx := by
   cases x with
   | tx s => simp [adjust]
   | el m as ks =>
@@ -168,30 +168,30 @@ theorem setText_setText (s t : String) (ks : List Xml) : setText t (setText s ks
 /-! ### two shifts in a row are one shift (every tree) -/
 
 mutual
-theorem adjust_adjust (N : Num) (hN : N.Laws) (d1 d2 : Int) (b : Bool) :
-    ∀ x, adjust N d2 b (adjust N d1 b x) = adjust N (d1 + d2) b x
+theorem adjust_adjust (N : Num) (ea : Bool) (hN : N.Laws) (d1 d2 : Int) (b : Bool) :
+    ∀ x, adjust N ea d2 b (adjust N ea d1 b x) = adjust N ea (d1 + d2) b x
   | .tx s => by simp [adjust]
   | .el n as ks => by
-    have ih := adjustKids_adjustKids N hN d1 d2 (n == "data") ks
+    have ih := adjustKids_adjustKids N ea hN d1 d2 (isRef ea n) ks
     simp only [adjust]
     by_cases hc : (b && n == "offset") = true
     · simp only [hc, ↓reduceIte, etext_adjustKids]
       by_cases hp : (N.atoi (etext ks)).2 = true
       · simp only [hp, ↓reduceIte, adjust, hc]
         -- after the first shift the text is the formatted number; it parses back
-        have e1 : adjustKids N d2 (n == "data") (setText (N.fmt (w64 ((N.atoi (etext ks)).1 + d1))) (adjustKids N d1 (n == "data") ks))
-            = setText (N.fmt (w64 ((N.atoi (etext ks)).1 + d1))) (adjustKids N (d1 + d2) (n == "data") ks) := by
+        have e1 : adjustKids N ea d2 (isRef ea n) (setText (N.fmt (w64 ((N.atoi (etext ks)).1 + d1))) (adjustKids N ea d1 (isRef ea n) ks))
+            = setText (N.fmt (w64 ((N.atoi (etext ks)).1 + d1))) (adjustKids N ea (d1 + d2) (isRef ea n) ks) := by
           simp only [setText, adjustKids_cons, adjust_tx]
           congr 1
           rw [← ih]
-          generalize adjustKids N d1 (n == "data") ks = l
+          generalize adjustKids N ea d1 (isRef ea n) ks = l
           induction l with
           | nil => simp [adjustKids]
           | cons k l ihl =>
             cases k with
             | tx s => simpa [List.dropWhile, adjustKids_cons, adjust_tx] using ihl
             | el m as2 k2 =>
-              have := adjust_isTx N d2 (n == "data") (.el m as2 k2)
+              have := adjust_isTx N ea d2 (isRef ea n) (.el m as2 k2)
               simp only [isTx_el] at this
               simp [adjustKids_cons, List.dropWhile, this]
         rw [e1, etext_setText, hN.rt _ (w64_inI64 _)]
@@ -199,56 +199,66 @@ theorem adjust_adjust (N : Num) (hN : N.Laws) (d1 d2 : Int) (b : Bool) :
         rw [Int.add_assoc]
       · simp only [hp, adjust, hc, ↓reduceIte, etext_adjustKids, Bool.false_eq_true, ih]
     · simp only [hc, adjust, ↓reduceIte, ih, Bool.false_eq_true]
-theorem adjustKids_adjustKids (N : Num) (hN : N.Laws) (d1 d2 : Int) (b : Bool) :
-    ∀ ks, adjustKids N d2 b (adjustKids N d1 b ks) = adjustKids N (d1 + d2) b ks
+theorem adjustKids_adjustKids (N : Num) (ea : Bool) (hN : N.Laws) (d1 d2 : Int) (b : Bool) :
+    ∀ ks, adjustKids N ea d2 b (adjustKids N ea d1 b ks) = adjustKids N ea (d1 + d2) b ks
   | [] => by simp [adjustKids]
   | k :: ks => by
     simp only [adjustKids]
-    rw [adjust_adjust N hN d1 d2 b k, adjustKids_adjustKids N hN d1 d2 b ks]
+    rw [adjust_adjust N ea hN d1 d2 b k, adjustKids_adjustKids N ea hN d1 d2 b ks]
 end
 
-/-! ### elements without `<data>` below them are not touched -/
+/-! ### elements without `<data>` (`<ea>`) below them are not touched -/
+
+theorem isRef_false (ea : Bool) (n : String) (h1 : n ≠ "data") (h2 : n ≠ "ea") : isRef ea n = false := by
+  cases ea <;> simp [isRef, h1, h2]
 
 mutual
-/-- no element named `data` at or below -/
-def noData : Xml → Bool
+/-- no element whose `<offset>` child `adjustOffsets` shifts (`<data>`; with `ea` also `<ea>`) at or below -/
+def noRef (ea : Bool) : Xml → Bool
   | .tx _ => true
-  | .el n _ ks => n != "data" && noDataL ks
-def noDataL : List Xml → Bool
+  | .el n _ ks => !isRef ea n && noRefL ea ks
+def noRefL (ea : Bool) : List Xml → Bool
   | [] => true
-  | k :: ks => noData k && noDataL ks
+  | k :: ks => noRef ea k && noRefL ea ks
 end
 
+/-- no element named `data` at or below (the original `adjustOffsets`) -/
+abbrev noData (x : Xml) : Bool := noRef false x
+
 mutual
-theorem adjust_noData (N : Num) (d : Int) : ∀ x, noData x = true → adjust N d false x = x
+theorem adjust_noRef (N : Num) (ea : Bool) (d : Int) : ∀ x, noRef ea x = true → adjust N ea d false x = x
   | .tx s, _ => by simp [adjust]
   | .el n as ks, h => by
-    simp only [noData, Bool.and_eq_true, bne_iff_ne, ne_eq] at h
-    have hn : (n == "data") = false := by simpa using h.1
-    simp only [adjust, Bool.false_and, Bool.false_eq_true, ↓reduceIte, hn]
-    rw [adjustKids_noData N d ks h.2]
-theorem adjustKids_noData (N : Num) (d : Int) : ∀ ks, noDataL ks = true → adjustKids N d false ks = ks
+    simp only [noRef, Bool.and_eq_true, Bool.not_eq_eq_eq_not, Bool.not_true] at h
+    simp only [adjust, Bool.false_and, Bool.false_eq_true, ↓reduceIte, h.1]
+    rw [adjustKids_noRef N ea d ks h.2]
+theorem adjustKids_noRef (N : Num) (ea : Bool) (d : Int) : ∀ ks, noRefL ea ks = true → adjustKids N ea d false ks = ks
   | [], _ => by simp [adjustKids]
   | k :: ks, h => by
-    simp only [noDataL, Bool.and_eq_true] at h
+    simp only [noRefL, Bool.and_eq_true] at h
     simp only [adjustKids]
-    rw [adjust_noData N d k h.1, adjustKids_noData N d ks h.2]
+    rw [adjust_noRef N ea d k h.1, adjustKids_noRef N ea d ks h.2]
 end
 
-theorem noDataL_certs (cs : List String) : noDataL (cs.map fun c => Xml.el "X509Certificate" [] [.tx c]) = true := by
+theorem noRefL_certs (ea : Bool) (cs : List String) : noRefL ea (cs.map fun c => Xml.el "X509Certificate" [] [.tx c]) = true := by
   induction cs with
   | nil => rfl
-  | cons c cs ih => simp [noDataL, noData, ih]
+  | cons c cs ih => simp [noRefL, noRef, ih, isRef_false ea "X509Certificate" (by decide) (by decide)]
 
-theorem noData_newSigElement (N : Num) (key style : String) (o sz : Int) (cs : Option (List String)) (hk : key ≠ "data") :
-    noData (newSigElement N key style o sz cs) = true := by
+theorem noRef_newSigElement (N : Num) (ea : Bool) (key style : String) (o sz : Int) (cs : Option (List String))
+    (hk : key ≠ "data") (hk2 : key ≠ "ea") : noRef ea (newSigElement N key style o sz cs) = true := by
+  have e1 := isRef_false ea "size" (by decide) (by decide)
+  have e2 := isRef_false ea "offset" (by decide) (by decide)
+  have e3 := isRef_false ea "KeyInfo" (by decide) (by decide)
+  have e4 := isRef_false ea "X509Data" (by decide) (by decide)
+  have e5 := isRef_false ea key hk hk2
   cases cs with
-  | none => simp [newSigElement, noData, noDataL, hk]
-  | some cs => simp [newSigElement, noData, noDataL, hk, noDataL_certs]
+  | none => simp [newSigElement, noRef, noRefL, e1, e2, e5]
+  | some cs => simp [newSigElement, noRef, noRefL, e1, e2, e3, e4, e5, noRefL_certs]
 
-theorem noDataL_reserve (N : Num) (hk : HK) (ki : KeyInfo) : noDataL (reserve N hk ki).1 = true := by
+theorem noRefL_reserve (N : Num) (ea : Bool) (hk : HK) (ki : KeyInfo) : noRefL ea (reserve N hk ki).1 = true := by
   unfold reserve
-  cases ki.rsaSize <;> simp [noDataL, noData_newSigElement]
+  cases ki.rsaSize <;> simp [noRefL, noRef_newSigElement]
 
 /-! ### `removeSigs` -/
 
@@ -285,16 +295,16 @@ theorem removeSigs_snd_nosig (N : Num) : ∀ ks, ∀ k ∈ (removeSigs N ks).2, 
       · simpa [Xml.isSig] using hn
       · exact removeSigs_snd_nosig N ks k hk
 
-theorem first_adjustKids (N : Num) (d : Int) (b : Bool) (n : String) : ∀ ks,
-    first n (adjustKids N d b ks) = (first n ks).map (adjust N d b)
+theorem first_adjustKids (N : Num) (ea : Bool) (d : Int) (b : Bool) (n : String) : ∀ ks,
+    first n (adjustKids N ea d b ks) = (first n ks).map (adjust N ea d b)
   | [] => by simp [adjustKids, first]
   | k :: ks => by
     simp only [adjustKids, first, adjust_isEl]
     split
     · simp
-    · exact first_adjustKids N d b n ks
+    · exact first_adjustKids N ea d b n ks
 
-theorem kids_adjust_etext (N : Num) (d : Int) (b : Bool) (x : Xml) : etext (adjust N d b x).kids = etext x.kids ∨
+theorem kids_adjust_etext (N : Num) (ea : Bool) (d : Int) (b : Bool) (x : Xml) : etext (adjust N ea d b x).kids = etext x.kids ∨
     (∃ n as ks, x = .el n as ks ∧ (b && n == "offset") = true) := by
   cases x with
   | tx s => left; simp [adjust]
@@ -305,8 +315,8 @@ theorem kids_adjust_etext (N : Num) (d : Int) (b : Bool) (x : Xml) : etext (adju
       simp [adjust, hc, Xml.kids, etext_adjustKids]
 
 /-- the `<size>` a signature element announces is not changed by shifting offsets (it is no `<data><offset>`) -/
-theorem sizeOfSigEl_adjustKids (N : Num) (d : Int) (ks : List Xml) :
-    sizeOfSigEl N (adjustKids N d false ks) = sizeOfSigEl N ks := by
+theorem sizeOfSigEl_adjustKids (N : Num) (ea : Bool) (d : Int) (ks : List Xml) :
+    sizeOfSigEl N (adjustKids N ea d false ks) = sizeOfSigEl N ks := by
   unfold sizeOfSigEl
   rw [first_adjustKids]
   cases h : first "size" ks with
@@ -316,29 +326,29 @@ theorem sizeOfSigEl_adjustKids (N : Num) (d : Int) (ks : List Xml) :
     | tx s => simp [adjust, Xml.kids]
     | el n as c => simp [adjust, Xml.kids, etext_adjustKids]
 
-theorem removeSigs_adjustKids (N : Num) (d : Int) : ∀ ks, removeSigs N (adjustKids N d false ks) =
-    ((removeSigs N ks).1, adjustKids N d false (removeSigs N ks).2)
+theorem removeSigs_adjustKids (N : Num) (ea : Bool) (d : Int) : ∀ ks, removeSigs N (adjustKids N ea d false ks) =
+    ((removeSigs N ks).1, adjustKids N ea d false (removeSigs N ks).2)
   | [] => by simp [adjustKids, removeSigs]
-  | .tx s :: ks => by simp [adjustKids, adjust, removeSigs, removeSigs_adjustKids N d ks]
+  | .tx s :: ks => by simp [adjustKids, adjust, removeSigs, removeSigs_adjustKids N ea d ks]
   | .el n as c :: ks => by
-    have ih := removeSigs_adjustKids N d ks
+    have ih := removeSigs_adjustKids N ea d ks
     by_cases hs : isSigName n = true
-    · have hd : (n == "data") = false := by
+    · have hd : (isRef ea n) = false := by
         simp only [isSigName, Bool.or_eq_true, decide_eq_true_eq] at hs
-        rcases hs with (rfl | rfl) | rfl <;> decide
+        rcases hs with (rfl | rfl) | rfl <;> exact isRef_false ea _ (by decide) (by decide)
       simp only [adjustKids, adjust, Bool.false_and, Bool.false_eq_true, ↓reduceIte, removeSigs, hs, ih, hd,
         sizeOfSigEl_adjustKids]
     · simp only [adjustKids, adjust, Bool.false_and, Bool.false_eq_true, ↓reduceIte, removeSigs, hs, ih]
 
-theorem splitFirst_adjustKids (N : Num) (d : Int) (b : Bool) (n : String) : ∀ ks,
-    splitFirst n (adjustKids N d b ks) =
-      (splitFirst n ks).map fun r => (adjustKids N d b r.1, adjust N d b r.2.1, adjustKids N d b r.2.2)
+theorem splitFirst_adjustKids (N : Num) (ea : Bool) (d : Int) (b : Bool) (n : String) : ∀ ks,
+    splitFirst n (adjustKids N ea d b ks) =
+      (splitFirst n ks).map fun r => (adjustKids N ea d b r.1, adjust N ea d b r.2.1, adjustKids N ea d b r.2.2)
   | [] => by simp [adjustKids, splitFirst]
   | k :: ks => by
     simp only [adjustKids, splitFirst, adjust_isEl]
     split
     · simp [adjustKids]
-    · rw [splitFirst_adjustKids N d b n ks]
+    · rw [splitFirst_adjustKids N ea d b n ks]
       cases splitFirst n ks <;> simp [adjustKids]
 
 theorem splitFirst_eq (n : String) : ∀ ks pre t post, splitFirst n ks = some (pre, t, post) →
@@ -384,15 +394,15 @@ theorem w64_congr (a b : Int) (h : (a - b) % 2 ^ 64 = 0) (v : Int) : w64 (v + a)
   omega
 
 mutual
-theorem adjust_congr (N : Num) (a b : Int) (h : ∀ v, w64 (v + a) = w64 (v + b)) (i : Bool) :
-    ∀ x, adjust N a i x = adjust N b i x
+theorem adjust_congr (N : Num) (ea : Bool) (a b : Int) (h : ∀ v, w64 (v + a) = w64 (v + b)) (i : Bool) :
+    ∀ x, adjust N ea a i x = adjust N ea b i x
   | .tx s => by simp [adjust]
   | .el n as ks => by
-    simp only [adjust, adjustKids_congr N a b h (n == "data") ks, h]
-theorem adjustKids_congr (N : Num) (a b : Int) (h : ∀ v, w64 (v + a) = w64 (v + b)) (i : Bool) :
-    ∀ ks, adjustKids N a i ks = adjustKids N b i ks
+    simp only [adjust, adjustKids_congr N ea a b h (isRef ea n) ks, h]
+theorem adjustKids_congr (N : Num) (ea : Bool) (a b : Int) (h : ∀ v, w64 (v + a) = w64 (v + b)) (i : Bool) :
+    ∀ ks, adjustKids N ea a i ks = adjustKids N ea b i ks
   | [] => by simp [adjustKids]
-  | k :: ks => by simp only [adjustKids, adjust_congr N a b h i k, adjustKids_congr N a b h i ks]
+  | k :: ks => by simp only [adjustKids, adjust_congr N ea a b h i k, adjustKids_congr N ea a b h i ks]
 end
 
 /-! ### the sizes of the new signature elements -/
@@ -483,22 +493,22 @@ theorem prep_build (N : Num) (hk : HK) (ki : KeyInfo) (ras : List (String × Str
             w64 (removeSigs N tks).1, (reserve N hk ki).2⟩ := by
   simp [prep, splitFirst_build "toc" pre (.el "toc" tas tks) post (by simp) hp, Xml.kids, Xml.attrs]
 
-theorem adjust_doc (N : Num) (d : Int) (ras : List (String × String)) (pre : List Xml) (tas : List (String × String))
+theorem adjust_doc (N : Num) (ea : Bool) (d : Int) (ras : List (String × String)) (pre : List Xml) (tas : List (String × String))
     (tks post : List Xml) :
-    adjust N d false (.el "xar" ras (pre ++ .el "toc" tas tks :: post)) =
-      .el "xar" ras (adjustKids N d false pre ++ .el "toc" tas (adjustKids N d false tks) :: adjustKids N d false post) := by
-  have h1 : ("xar" == "data") = false := by decide
-  have h2 : ("toc" == "data") = false := by decide
+    adjust N ea d false (.el "xar" ras (pre ++ .el "toc" tas tks :: post)) =
+      .el "xar" ras (adjustKids N ea d false pre ++ .el "toc" tas (adjustKids N ea d false tks) :: adjustKids N ea d false post) := by
+  have h1 := isRef_false ea "xar" (by decide) (by decide)
+  have h2 := isRef_false ea "toc" (by decide) (by decide)
   simp [adjust, adjustKids_append, adjustKids_cons, h1, h2]
 
-theorem isEl_adjustKids_false (N : Num) (d : Int) (b : Bool) (n : String) : ∀ (ks : List Xml), (∀ k ∈ ks, k.isEl n = false) →
-    ∀ k ∈ adjustKids N d b ks, k.isEl n = false
+theorem isEl_adjustKids_false (N : Num) (ea : Bool) (d : Int) (b : Bool) (n : String) : ∀ (ks : List Xml), (∀ k ∈ ks, k.isEl n = false) →
+    ∀ k ∈ adjustKids N ea d b ks, k.isEl n = false
   | [], _, k, hk => by simp [adjustKids] at hk
   | x :: xs, hp, k, hk => by
     simp only [adjustKids, List.mem_cons] at hk
     rcases hk with rfl | hk
     · rw [adjust_isEl]; exact hp x List.mem_cons_self
-    · exact isEl_adjustKids_false N d b n xs (fun y hy => hp y (List.mem_cons_of_mem _ hy)) k hk
+    · exact isEl_adjustKids_false N ea d b n xs (fun y hy => hp y (List.mem_cons_of_mem _ hy)) k hk
 
 theorem w64_emod (x : Int) : (w64 x - x) % 2 ^ 64 = 0 := by
   unfold w64; omega
@@ -506,34 +516,34 @@ theorem w64_emod (x : Int) : (w64 x - x) % 2 ^ 64 = 0 := by
 /-- **Re-signing at the level of documents.**  Let `Sign` with key 1 turn document `t` into `p1.tree`.  Running `Sign` with
     key 2 on that result finds exactly the space key 1 reserved as the old signature size, and serialises the very document
     it serialises when it is run on `t` directly: nothing of the first signature (elements, sizes, offset shift) is left. -/
-theorem prep_resign (N : Num) (hN : N.Laws) (hk1 hk2 : HK) (ki1 ki2 : KeyInfo) (h1 : ki1.small) (t : Xml) (p1 p2 : Prep)
+theorem prep_resign (N : Num) (ea : Bool) (hN : N.Laws) (hk1 hk2 : HK) (ki1 ki2 : KeyInfo) (h1 : ki1.small) (t : Xml) (p1 p2 : Prep)
     (e1 : prep N hk1 ki1 t = some p1) (e2 : prep N hk2 ki2 t = some p2) :
-    ∃ p2', prep N hk2 ki2 (p1.tree N) = some p2' ∧ p2'.origSig = p1.newSig ∧ p2'.newSig = p2.newSig ∧
-      p2'.tree N = p2.tree N := by
+    ∃ p2', prep N hk2 ki2 (p1.tree N ea) = some p2' ∧ p2'.origSig = p1.newSig ∧ p2'.newSig = p2.newSig ∧
+      p2'.tree N ea = p2.tree N ea := by
   obtain ⟨ras, pre, tas, tks, post, rfl, hp, rfl⟩ := prep_some N hk1 ki1 t p1 e1
   rw [prep_build N hk2 ki2 ras pre tas tks post hp] at e2
   cases e2
-  have hpre : ∀ d, ∀ k ∈ adjustKids N d false pre, k.isEl "toc" = false := fun d => isEl_adjustKids_false N d false "toc" pre hp
+  have hpre : ∀ d, ∀ k ∈ adjustKids N ea d false pre, k.isEl "toc" = false := fun d => isEl_adjustKids_false N ea d false "toc" pre hp
   have hb := reserve_size_bounds N hk1 ki1 h1
-  have hrs : ∀ d, removeSigs N ((reserve N hk1 ki1).1 ++ adjustKids N d false (removeSigs N tks).2) =
-      ((reserve N hk1 ki1).2, adjustKids N d false (removeSigs N tks).2) := by
+  have hrs : ∀ d, removeSigs N ((reserve N hk1 ki1).1 ++ adjustKids N ea d false (removeSigs N tks).2) =
+      ((reserve N hk1 ki1).2, adjustKids N ea d false (removeSigs N tks).2) := by
     intro d
     rw [removeSigs_append, removeSigs_reserve N hN hk1 ki1 h1, removeSigs_adjustKids,
       removeSigs_nosig N _ (removeSigs_snd_nosig N tks)]
     simp
-  have hprep : prep N hk2 ki2 (Prep.tree N ⟨.el "xar" ras (pre ++ .el "toc" tas ((reserve N hk1 ki1).1 ++ (removeSigs N tks).2) :: post),
+  have hprep : prep N hk2 ki2 (Prep.tree N ea ⟨.el "xar" ras (pre ++ .el "toc" tas ((reserve N hk1 ki1).1 ++ (removeSigs N tks).2) :: post),
       w64 (removeSigs N tks).1, (reserve N hk1 ki1).2⟩) = some ⟨.el "xar" ras
-        (adjustKids N (w64 ((reserve N hk1 ki1).2 - w64 (removeSigs N tks).1)) false pre ++
-          .el "toc" tas ((reserve N hk2 ki2).1 ++ adjustKids N (w64 ((reserve N hk1 ki1).2 - w64 (removeSigs N tks).1)) false (removeSigs N tks).2) ::
-          adjustKids N (w64 ((reserve N hk1 ki1).2 - w64 (removeSigs N tks).1)) false post),
+        (adjustKids N ea (w64 ((reserve N hk1 ki1).2 - w64 (removeSigs N tks).1)) false pre ++
+          .el "toc" tas ((reserve N hk2 ki2).1 ++ adjustKids N ea (w64 ((reserve N hk1 ki1).2 - w64 (removeSigs N tks).1)) false (removeSigs N tks).2) ::
+          adjustKids N ea (w64 ((reserve N hk1 ki1).2 - w64 (removeSigs N tks).1)) false post),
         w64 (reserve N hk1 ki1).2, (reserve N hk2 ki2).2⟩ := by
-    simp only [Prep.tree, adjust_doc, adjustKids_append, adjustKids_noData N _ _ (noDataL_reserve N hk1 ki1)]
+    simp only [Prep.tree, adjust_doc, adjustKids_append, adjustKids_noRef N ea _ _ (noRefL_reserve N ea hk1 ki1)]
     rw [prep_build N hk2 ki2 ras _ tas _ _ (hpre _), hrs]
   refine ⟨_, hprep, ?_, rfl, ?_⟩
   · simp only
     exact w64_id (by unfold inI64; omega)
-  · simp only [Prep.tree, adjust_doc, adjustKids_append, adjustKids_noData N _ _ (noDataL_reserve N hk2 ki2),
-      adjustKids_adjustKids N hN]
+  · simp only [Prep.tree, adjust_doc, adjustKids_append, adjustKids_noRef N ea _ _ (noRefL_reserve N ea hk2 ki2),
+      adjustKids_adjustKids N ea hN]
     have hc : ∀ v, w64 (v + (w64 ((reserve N hk1 ki1).2 - w64 (removeSigs N tks).1) +
         w64 ((reserve N hk2 ki2).2 - w64 (reserve N hk1 ki1).2))) =
         w64 (v + w64 ((reserve N hk2 ki2).2 - w64 (removeSigs N tks).1)) := by
@@ -545,7 +555,35 @@ theorem prep_resign (N : Num) (hN : N.Laws) (hk1 hk2 : HK) (ki1 ki2 : KeyInfo) (
       have d : w64 (reserve N hk1 ki1).2 = (reserve N hk1 ki1).2 := w64_id (by unfold inI64; omega)
       rw [d] at b ⊢
       omega
-    rw [adjustKids_congr N _ _ hc false pre, adjustKids_congr N _ _ hc false post,
-      adjustKids_congr N _ _ hc false (removeSigs N tks).2]
+    rw [adjustKids_congr N ea _ _ hc false pre, adjustKids_congr N ea _ _ hc false post,
+      adjustKids_congr N ea _ _ hc false (removeSigs N tks).2]
+
+/-- the shift `Sign` applies depends on the old signature size only modulo 2^64 -/
+theorem tree_congr (N : Num) (ea : Bool) (p : Prep) (s : Int) (h : p.origSig = w64 s) :
+    adjust N ea (w64 (p.newSig - s)) false p.doc1 = p.tree N ea := by
+  unfold Prep.tree
+  apply adjust_congr
+  apply w64_congr
+  have a := w64_emod (p.newSig - s)
+  have b := w64_emod (p.newSig - p.origSig)
+  have c := w64_emod s
+  rw [h] at b ⊢
+  omega
+
+theorem tocKids_build (ras : List (String × String)) (pre : List Xml) (tas : List (String × String)) (tks post : List Xml)
+    (hp : ∀ k ∈ pre, k.isEl "toc" = false) : tocKids (.el "xar" ras (pre ++ .el "toc" tas tks :: post)) = some tks := by
+  simp [tocKids, splitFirst_build "toc" pre (.el "toc" tas tks) post (by simp [Xml.isEl]) hp]
+
+/-- the `<toc>` children of what `Sign` serialises: the old `removeSigs` sums exactly the reserved space over them -/
+theorem tree_tocKids (N : Num) (ea : Bool) (hN : N.Laws) (hk : HK) (ki : KeyInfo) (hki : ki.small) (t : Xml) (p : Prep)
+    (e : prep N hk ki t = some p) : ∃ tks', tocKids (p.tree N ea) = some tks' ∧ (removeSigs N tks').1 = p.newSig := by
+  obtain ⟨ras, pre, tas, tks, post, rfl, hp, rfl⟩ := prep_some N hk ki t p e
+  have hpre : ∀ d, ∀ k ∈ adjustKids N ea d false pre, k.isEl "toc" = false := fun d => isEl_adjustKids_false N ea d false "toc" pre hp
+  refine ⟨(reserve N hk ki).1 ++ adjustKids N ea (w64 ((reserve N hk ki).2 - w64 (removeSigs N tks).1)) false (removeSigs N tks).2, ?_, ?_⟩
+  · simp only [Prep.tree, adjust_doc, adjustKids_append, adjustKids_noRef N ea _ _ (noRefL_reserve N ea hk ki)]
+    exact tocKids_build _ _ _ _ _ (hpre _)
+  · rw [removeSigs_append, removeSigs_reserve N hN hk ki hki, removeSigs_adjustKids,
+      removeSigs_nosig N _ (removeSigs_snd_nosig N tks)]
+    simp
 
 end Relic.Xar
